@@ -506,6 +506,17 @@ def impl_walk(data):
     return _walk(A, A.ASN1Reader(bytes(data)))
 
 
+def oracle_strict(data):
+    """The check's own strict DER reader, compared with Spec/DerSpec.v strict_parse (extracted)."""
+    def conv(t):
+        cls, cons, num, c = t
+        return [cls, num, cons, [conv(x) for x in c] if isinstance(c, list) else c]
+    try:
+        return [conv(t) for t in strict_parse(bytes(data))]
+    except DerError:
+        return None
+
+
 def bucket(text: str) -> str:
     if text.startswith("e"):
         return "deliberate-error" if text[1:] in DELIBERATE else "internal-error"
@@ -773,6 +784,7 @@ def units(ctx: Ctx, only=None):
     def g(f):
         return [] if replaying else f(ctx)
 
+    mal = g(gen_malformed)
     return [
         Unit("asn1.int", "asn1.int", g(gen_ints), impl_int, prop_pred=pred_int),
         Unit("asn1.int_range", "asn1.int_range", g(gen_int_ranges), impl_int_range, prop_pred=pred_int_range),
@@ -780,7 +792,9 @@ def units(ctx: Ctx, only=None):
         Unit("asn1.tlv", "asn1.tlv", g(gen_tlv), impl_tlv, prop_pred=pred_tlv),
         Unit("asn1.oid", "asn1.oid", g(gen_oids), impl_oid, prop_pred=pred_oid),
         Unit("asn1.tree", "asn1.tree", g(gen_trees), impl_tree, prop_pred=pred_tree),
-        Unit("asn1.malformed", "asn1.walk", g(gen_malformed), impl_walk, prop_pred=pred_walk, bucket=bucket),
+        Unit("asn1.malformed", "asn1.walk", mal, impl_walk, prop_pred=pred_walk, bucket=bucket),
+        # oracle calibration: the Python strict reader used by the predicates == the Coq spec reader
+        Unit("asn1.oracle_vs_spec", "asn1.strict", mal, oracle_strict, prop_pred=lambda a, o: None),
     ]
 
 
